@@ -73,6 +73,7 @@ def main():
     exit_code = 0
     env_errors = []
     any_mismatch = []
+    all_digests = {}
 
     def handle_stream(name, driver, cases, model_driver=None):
         nonlocal evaluations, n_cases, distinct, nontrivial, exit_code
@@ -84,8 +85,10 @@ def main():
             return
         evaluations += res.stats.get("steps", 0)
         n_cases += res.stats.get("cases", 0)
-        distinct += res.stats.get("distinct_states", 0)
-        nontrivial += res.stats.get("nontrivial_states", 0)
+        for d, nt in getattr(res, "digests", {}).items():
+            all_digests[d] = max(all_digests.get(d, 0), nt)
+        distinct = len(all_digests)
+        nontrivial = sum(all_digests.values())
         for k, v in res.hist.items():
             hist[k] = hist.get(k, 0) + v
         stream_info.append(dict(stream=name, cases=len(cases), steps=res.stats.get("steps", 0),
